@@ -641,6 +641,35 @@ def payload_queries(prop, tier):
                            "symbolic": "all payload bytes, unconstrained (valid and invalid documents)"})
             q.group = "h_script.payload"
             qs.append(q)
+    # nesting one deeper than the state array allows: skipping must hit the same MAX_DEPTH verdict as verify
+    deep = []
+    for D in (1, 2, 3) if tier != "quick" else (2,):
+        for leaf in ("E", "T"):                      # empty object / object with one field at the forbidden level
+            inner = Node("O", [] if leaf == "E" else [Node("T")], [] if leaf == "E" else [0])
+            node = inner
+            for k in range(D):
+                node = Node("O", [node, Node("T")], [0, 1])
+            deep.append((1, node, D))
+            node = inner
+            for k in range(D - 1):
+                node = Node("O", [node, Node("T")], [0, 1])
+            deep.append((2, Node("A", [node, Node("T")], []), D))
+    for root, node, D in deep:
+        b, m = shapes.skeleton(node)
+        for tag, s in shapes.variant_scripts(node):
+            if tag.split("@")[0] not in ("skip", "leave", "full", "raw"):
+                continue
+            if tier == "quick" and tag not in ("skip", "leave@0", "leave@1", "full"):
+                continue
+            q = script_query(prop, s, len(b), D, root, mode=2, J=None, timeout=900,
+                             extra={"SK_LEN": len(b), "SK_BYTES": ",".join(str(x) for x in b), "SK_MASK": ",".join(str(x) for x in m),
+                                    "WIT_REJECT": 1})
+            q.name = "depthlimit.p%d.D%d.%s.%s.%s" % (prop, D, node.label(), tag, "-".join(s))
+            q.array_fs = True
+            q.mem_gb = 2
+            q.tags.update({"shape": node.label(), "family": "H-PAYLOAD", "variant": tag, "what": "object nesting one deeper than max_depth=%d" % D})
+            q.group = "h_script.payload"
+            qs.append(q)
     # lookups over possibly unordered / duplicate names (both names and the searched names symbolic)
     dup = Node("O", [Node("T"), Node("T")], [1, 1])
     b, m = shapes.skeleton(dup)
@@ -733,6 +762,14 @@ def plan_C11(tier):
                 qs.append(shape_script_query(11, node, s, "tw", root))
         # raw on a non-container: false and nothing changes
     qs += sibling_queries(11, ("raw", "tw"))
+    # parser_to_writer into a writer that the container fills EXACTLY (the two-pass sizing idiom)
+    from . import shapes as _sh
+    for root, node in sibling_nodes()[:16]:
+        first = node.children[0]
+        b1, _m1 = _sh.skeleton(first)
+        s = _sh.full_script(node, plan={id(first): "tw"})
+        q = shape_script_query(11, node, s, "tw-exact-fit", root, extra={"WCAP": len(b1)})
+        qs.append(q)
     from .shapes import Node
     for root, node in [(2, Node("A", [Node("T"), Node("A", [], [])], [])), (1, Node("O", [Node("T"), Node("O", [], [])], [0, 1]))]:
         first = "GA" if root == 2 else "GO"
@@ -1093,6 +1130,12 @@ def plan_C12(tier):
             if fn == 14 and tier == "quick":
                 n, D = 4, 1
             qs.append(step_query(12, fn, n, D, checks="func", timeout=2400))
+    # a to_string / print that fails (too small a buffer, invalid document) must not leave anything behind either
+    from .shapes import Node
+    for root, node in [(2, Node("A", [Node("T"), Node("T")], [])), (1, Node("O", [Node("T")], [1])), (2, Node("A", [Node("A", [], []), Node("T")], []))]:
+        q = shape_print_query(12, 5, node, root, tcap=12)
+        q.checks = "mem"
+        qs.append(q)
     # writer
     for c in ((0, 1, 2, 8) if tier == "quick" else range(0, 13)):
         qs.append(writer_query(12, 4, c))
@@ -1431,16 +1474,16 @@ def plan_C02_full(tier):
     # verify on every tree shape with UNCONSTRAINED payload (names symbolic: order / duplicates decided by the solver,
     # the previous-name bookkeeping across nested containers included)
     from . import shapes
-    for root, T in ((1, 6 if tier == "quick" else 8), (2, 5 if tier == "quick" else 7)):
-        for node in shapes.gen_shapes(root, T, ("T", "S1"), 3):
-            if "n" not in node.label():
-                continue            # no field names: nothing the arbitrary-bytes queries do not cover
-            q = shape_doc_query("C02", 1, node, root, name="payload", timeout=1500)
+    for root, T in ((1, 7 if tier == "quick" else 8), (2, 6 if tier == "quick" else 7)):
+        for node in shapes.gen_shapes(root, T, ("T",) if tier == "quick" else ("T", "S1"), 3):
+            if node.label().count("n") < 2:
+                continue            # fewer than two field names: nothing the arbitrary-bytes queries do not cover
+            q = shape_doc_query("C02", 1, shapes.renamed(node, 1), root, name="payload", timeout=1500)
             q.mem_gb = 4
             qs.append(q)
     for root in (1, 2):
         for node in shapes.chain_shapes(root, 4, True):
-            qs.append(shape_doc_query("C02", 1, node, root, name="payload", timeout=1500))
+            qs.append(shape_doc_query("C02", 1, shapes.renamed(node, 1), root, name="payload", timeout=1500))
     # the array nesting limit through verify itself: 255 nested arrays accepted, 256 => MAX_DEPTH_ARRAY (structure concrete)
     qs += [deep_array_query(255, sym_inner=False), deep_array_query(256, sym_inner=False)]
     if tier != "quick":
